@@ -32,6 +32,7 @@ ASSUMPTIONS = [
     'the destination directory contains only the files the harness put there; temporary files elsewhere are not judged',
 ]
 EXHAUSTIVE = {'quick': True, 'thorough': True}
+PYOPT_KINDS = ('writer_section',)
 TIMEOUT = {'quick': 1500, 'thorough': 10800}
 
 
